@@ -36,6 +36,8 @@ pub enum GameError {
     ///
     /// Make sure that all actions of a player node are unique.
     ActionsNotUnique,
+    /// Returned when the payoff of a terminal node is nan or infinite
+    NonFinitePayoff,
 }
 
 impl Display for GameError {
